@@ -66,10 +66,10 @@ def prepare_workspace(tag, repo="/repo"):
 HOSTS = {"nexrad-decode": "src/messages.rs", "nexrad-data": "src/volume.rs"}  # harness module is a child of this module (sees its private items)
 
 
-def inject(ws, crate, files, cfg="any(kani, verif_replay)"):
+def inject(ws, crate, files, cfg="any(kani, verif_replay)", host=None):
     """copy harness files into a `verif_harness` child module of the crate's host module (lib.rs by default;
     for nexrad-decode `messages`, so that harnesses can name items of its private submodules)"""
-    host = HOSTS.get(crate, "src/lib.rs")
+    host = host or HOSTS.get(crate, "src/lib.rs")
     hostpath = os.path.join(ws, crate, host)
     if host.endswith("lib.rs"):
         hd = os.path.join(os.path.dirname(hostpath), "verif_harness")
@@ -228,14 +228,14 @@ def _invoke(ws, crate, target, harnesses, features, no_default_features, jobs, h
 
 
 def run_group(tag, crate, harness_files, harnesses, repo="/repo", features=None, no_default_features=False,
-              jobs=8, harness_timeout=600, total_timeout=3000, extra_args=(), playback=True, log_dir=None):
+              jobs=8, harness_timeout=600, total_timeout=3000, extra_args=(), playback=True, log_dir=None, host=None):
     """run `harnesses` (names) of `crate` in parallel; failed harnesses are re-run sequentially with
     --concrete-playback=print to obtain the counterexample values.  Returns KaniGroupResult"""
     out = KaniGroupResult()
     t0 = time.time()
     base, ws, lock = prepare_workspace(tag, repo)
     try:
-        inject(ws, crate, harness_files)
+        inject(ws, crate, harness_files, host=host)
         try:
             out.contracts = inject_contracts(ws, crate)
         except Exception as e:  # lost anchor => undecided, never an alarm
